@@ -53,6 +53,42 @@ def maporder_across_processes(c):
 
 
 CONFIG = {
+    "C18": {
+        "profiles": BOTH,
+        "rule": "one evaluation = one source compiled (span check), one slice recompiled or one corrupted source compiled (error location); distinct non-trivial = "
+                "distinct sources with at least three nodes that have their own span, and distinct corrupted sources",
+        "floors": {"quick": {"_evaluations": 200000, "ast_nodes_walked": 1000000, "slices_recompiled": 50000, "tokens_checked": 100000, "syntax_errors_located": 50000},
+                   "thorough": {"_evaluations": 2000000}},
+        "assumptions": ASSUME_COMMON + [
+            "spans of match patterns (and the case nodes derived from them) are excluded, as the property says",
+            "zero-width bookkeeping nodes (empty unary-run lists) are only required to lie inside their parent",
+            "the AST is walked generically as JSON ({loc, node} objects); columns are counted in characters"],
+        "technique": "runtime monitoring: the renderer's recorded span of every sub-expression is the ground truth for the AST's spans (set equality in both directions), "
+                     "structural invariant walk over the serialised tree (containment, disjoint siblings, root), slice-and-recompile, token re-lex, error-location bounds",
+        "level_text": "Generated expressions of all node kinds rendered with random white space (blanks, tabs, newlines), multi-byte string literals and random/redundant parentheses: every "
+                      "renderer span must be the span of a syntax-tree node and vice versa; children inside parents, siblings disjoint, root without surrounding blanks; the text of a "
+                      "span recompiles to the same normalised subtree; token spans increase, do not overlap and re-lex to the same token; for corrupted sources the reported line/column "
+                      "lies within the source. Exploration only.",
+        "level_note": "trusts the renderer's layout bookkeeping (line/column counting) and the generic JSON walk",
+    },
+    "C02": {
+        "profiles": BOTH,
+        "rule": "one evaluation = one source parsed (shape check) or executed (outcome check); distinct non-trivial = distinct operator sequences with at least two "
+                "operators and distinct random trees with at least four nodes",
+        "floors": {"quick": {"_evaluations": 300000, "flat/2ops": 20000, "flat/3ops": 2000, "ternary_positions": 5000, "postfix_positions": 20000,
+                             "disagreeing_parens": 1000, "arith_evaluated": 10000},
+                   "thorough": {"_evaluations": 5000000, "flat/3ops": 1000000}},
+        "assumptions": ASSUME_COMMON + [
+            "mixed prefix runs (!-x) and a bare ?: / match in operand position are not in the grammar and are not generated as positives",
+            "the AST is normalised by collapsing single-child wrappers and parentheses (public grammar types walked in astnorm.rs)"],
+        "technique": "runtime monitoring with an independent shunting-yard parser as reference model for the exposed syntax tree, metamorphic re-rendering "
+                     "(minimal / redundant / random parentheses x white space) and an i128 evaluation of arithmetic trees",
+        "level_text": "Exhaustive: every flat sequence of 1..3 binary operators (14 + 196 + 2744) with the five unary prefixes per operand (quick: all <= 2-operator sequences with all "
+                      "prefixes, 3-operator ones without; thorough: all 1.7 M), ?: at every pair of positions, five postfix chains at every operand position; the normalised AST must "
+                      "equal the shunting-yard tree. Random trees to depth 7 in six renderings must give the same AST and outcome; moved parentheses must give the other tree; "
+                      "arithmetic trees must evaluate to the i128 value of the expected tree. Exploration only (the exhaustive part is complete for its bounds).",
+        "level_note": "trusts the 30-line shunting-yard parser, the AST walk and the renderer",
+    },
     "C17": {
         "profiles": BOTH,
         "rule": "one evaluation = one compile (coverage check), one perturbed execution or one filter check; distinct non-trivial = distinct sources with at least one "
